@@ -584,40 +584,5 @@ fn rerun_range(ctx: &mut Ctx, s: &Subject, from: usize, to: usize) {
 }
 
 pub fn merge_child(ctx: &mut Ctx, j: &J) {
-    if let Some(n) = j.get("evaluations").and_then(|x| x.as_int()) {
-        ctx.evals(n as u64);
-    }
-    if let Some(J::Obj(items)) = j.get("counters") {
-        for (k, v) in items {
-            if let Some(n) = v.as_int() {
-                ctx.count_n(k, n as u64);
-            }
-        }
-    }
-    if let Some(J::Arr(hs)) = j.get("distinct_hashes") {
-        for h in hs {
-            if let Some(s) = h.as_str() {
-                ctx.distinct_raw(u64::from_str_radix(s, 16).unwrap_or(0));
-            }
-        }
-    }
-    if let Some(J::Arr(vs)) = j.get("violations") {
-        for v in vs {
-            let sig = v.get("sig").and_then(|x| x.as_str()).unwrap_or("C06:?").to_string();
-            let subj = v.get("subject").and_then(|x| x.as_str()).unwrap_or("?").to_string();
-            ctx.violation(&sig, &subj, v.get("detail").cloned().unwrap_or(J::Null));
-        }
-    }
-    if let Some(J::Arr(xs)) = j.get("inconclusive") {
-        for x in xs {
-            if let Some(s) = x.as_str() {
-                ctx.inconclusive(s.to_string());
-            }
-        }
-    }
-    if let Some(J::Arr(xs)) = j.get("samples") {
-        for x in xs {
-            ctx.sample("child", x.clone());
-        }
-    }
+    ctx.merge(j);
 }
